@@ -92,10 +92,12 @@ func Specs(o Oracle, quick bool) []*Spec {
 	case C11:
 		if quick {
 			add(&Spec{Name: "plain-skiplist-b1-sync", Cfg: dbh.Config{Engine: "skiplist", Buckets: 1, VlogFileSize: tinyVlog, SyncWrites: true},
-				Mode: "plain", Client: []string{"s:a", "b:a", "d:a"}, Maint: []string{"rf", "gc"}, MaxClient: 3, MaxMaint: 1, Depth: 3, PostDepth: 2, PostCrash: true, PostPut: true})
+				Mode: "plain", Client: []string{"s:a", "b:a", "d:a"}, Maint: []string{"rf", "gc"}, MaxClient: 2, MaxMaint: 1, Depth: 3, PostDepth: 2, PostCrash: true, PostPut: true})
 			add(&Spec{Name: "txn-art-b2-sync", Cfg: dbh.Config{Engine: "art", Buckets: 2, VlogFileSize: tinyVlog, SyncWrites: true},
 				Mode: "txn", Client: []string{"t:x=b", "t:x=d", "t:x=s,y=b"}, Maint: []string{"rf"}, MaxClient: 2, MaxMaint: 1, Depth: 2, PostDepth: 2, PostCrash: true, PostPut: true})
-			add(gcSpec("plain-gc-rewrite-nosync", false, 4, 2))
+			g := gcSpec("plain-gc-rewrite-nosync", false, 4, 2)
+			g.Client = []string{"b:a", "b:b"}
+			add(g)
 			add(&Spec{Name: "txn-gc-orphan-sync", Cfg: dbh.Config{Engine: "skiplist", Buckets: 1, VlogFileSize: pairVlog, SyncWrites: true},
 				Mode: "txn", Client: []string{"t:x=b", "t:x=d"}, Maint: []string{"rf"}, MaxClient: 2, MaxMaint: 1, Depth: 2, PostDepth: 3, PostCrash: false, PostPut: true})
 		} else {
@@ -192,7 +194,11 @@ func Main(o Oracle) {
 	if c["crossval_mismatch"] > 0 {
 		vr.Fatalf("%d literal-crash cross-validations disagreed with the in-process snapshots: %v", c["crossval_mismatch"], total.Notes)
 	}
-	rule := "DFS over all histories of client writes (plain Set/Del or transactions: inline, value-log sized, huge, delete, 2-key) interleaved with enabled maintenance (rotate/flush, L0->base, ingest drain, value-log GC per file, reopen) within the per-path budgets; while the last op of each history runs, every mutating vfs call (before/after), torn write(2) prefixes {1,len/2,len-1}, every named hook point, the ack instant and synthesized torn mmap stores are crash points; each distinct directory image (content hash) is reopened with the real Open and judged"
+	post := ""
+	if o == C11 {
+		post = "; C11: on every distinct recovered image every schedule up to the post bound over {rotate+flush, L0->base, ingest drain, GC of every sealed value-log file, one new client write of a fresh key, second crash+reopen} is run and all reads of the old keys are compared with the reads right after reopen"
+	}
+	rule := "DFS over all histories of client writes (plain Set/Del or transactions: inline, value-log sized, huge, delete, 2-key) interleaved with enabled maintenance (rotate/flush, L0->base, ingest drain, value-log GC per file, reopen) within the per-path budgets; while the last op of each history runs, every mutating vfs call (before/after), torn write(2) prefixes {1,len/2,len-1}, every named hook point, the ack instant and synthesized torn mmap stores are crash points; each distinct directory image (content hash) is reopened with the real Open and judged" + post
 	r.Finish(vr.Coverage{
 		Level:       "fault_enumeration",
 		Evaluations: c["images_recovered"],
@@ -218,7 +224,8 @@ func Main(o Oracle) {
 			"process-crash model: the crash image is the directory as the OS sees it (crashfs snapshot taken synchronously inside the vfs call / hook); fsync omissions are invisible by construction",
 			"background work serialized: compaction paused and harness-driven, flush worker gated, one client op at a time (the commit worker is the goroutine executing the point)",
 			"torn mmap stores are synthesized as prefixes of the byte range that changed between two consecutive images",
-			"traces_validated_against_impl counts crash points re-executed literally (child process SIGKILLed at the point) with a byte-identical directory tree",
+			"traces_validated_against_impl counts crash points re-executed literally (child process SIGKILLed at the point) with a byte-identical directory tree (manifest AddFile CreatedAt seconds excepted; thorough tier only)",
+			"engine-internal map iteration order (which record of a 2-key batch is appended first) is not controlled: a failure is reported only if it reproduces on two fresh re-executions of its history",
 		},
 	})
 }
